@@ -289,6 +289,14 @@ def noise(spec, frame=None, pos=None):
     get_damage_logic(JobType(job), 2)
     get_passive(JobType(job), 1, 1, 260, 700)
     get_builtin_strategy(JobType(job))
+    # another user of the public loader who INJECTS values into what it loads (SpecBasedLoader.load(..., injects=...)):
+    # the injected values belong to that one object, not to the stored specification
+    from simaple.data.jobs.builtin import get_kms_skill_loader
+    try:
+        get_kms_skill_loader().load(query={"group": job, "kind": "SkillProfile"},
+                                    injects={"verif_injected": variant + 1, "hexa_skill_names": ["injected by another user"]})
+    except Exception:  # noqa: BLE001 -- what this user gets is not compared
+        pass
     api_noise(job, variant)
     if frame:
         frame.check(f"noise {job}/{variant}", pos)
